@@ -317,3 +317,119 @@ func VerifC12_EffectiveMethod() {
 	}
 	rt.Reach("method-end")
 }
+
+// ---- API key configuration: every configured key grants exactly what its own
+// entry says, until its own expiry, whatever else is configured around it ----
+
+type c12Key struct {
+	entry   string // configuration entry
+	path    string // the key itself
+	ok      bool   // well-formed entry, not expired at import
+	perm    Permission
+	expires int // units after the import (0: never)
+}
+
+// Under the engine the clock is assumed to be within 10 minutes after
+// 2030-06-01T00:00:00Z and one unit is an hour; natively expiries are built
+// from the real clock and one unit is two seconds.
+const c12Ref = 1906502400
+
+func c12Unit() time.Duration {
+	if rt.Symbolic() {
+		return time.Hour
+	}
+	return 2 * time.Second
+}
+
+func c12Expiry(units int) string {
+	if rt.Symbolic() {
+		switch units {
+		case -1:
+			return "2030-05-31T23:00:00Z"
+		case 1:
+			return "2030-06-01T01:00:00Z"
+		}
+		return "2030-06-01T03:00:00Z"
+	}
+	return time.Now().Add(time.Duration(units) * c12Unit()).UTC().Format(time.RFC3339)
+}
+
+func c12KeyMenu(tag string, path string, perm string, p Permission) c12Key {
+	base := path + "?read=" + perm + "&write=" + perm
+	switch rt.Choice(tag+".expiry", 4) {
+	case 0:
+		return c12Key{base, path, true, p, 0}
+	case 1: // already expired at import
+		return c12Key{base + "&expires=" + c12Expiry(-1), path, false, p, -1}
+	case 2:
+		return c12Key{base + "&expires=" + c12Expiry(1), path, true, p, 1}
+	}
+	return c12Key{base + "&expires=" + c12Expiry(3), path, true, p, 3}
+}
+
+func VerifC12_APIKeyConfig() {
+	setupGlobalsC12()
+	if rt.Symbolic() {
+		now := time.Now().Unix()
+		rt.Assume(now >= c12Ref)
+		rt.Assume(now < c12Ref+600)
+	}
+	keys := []c12Key{
+		c12KeyMenu("k0", "keyAAAA", "admin", PermitAdmin),
+		c12KeyMenu("k1", "keyBBBB", "user", PermitUser),
+	}
+	if rt.Bool("swap") {
+		keys[0], keys[1] = keys[1], keys[0]
+	}
+	switch rt.Choice("third", 5) {
+	case 1:
+		keys = append(keys, c12Key{"keyCCCC?read=bogus", "keyCCCC", false, 0, 0})
+	case 2:
+		keys = append(keys, c12Key{"keyCCCC?read=user&expires=tomorrow", "keyCCCC", false, 0, 0})
+	case 3:
+		keys = append(keys, c12Key{"?read=admin&write=admin", "", false, 0, 0})
+	case 4:
+		keys = append([]c12Key{{"keyCCCC?write=user", "keyCCCC", true, PermitUser, 0}}, keys...)
+	}
+	var entries []string
+	for _, k := range keys {
+		entries = append(entries, k.entry)
+	}
+	configuredAPIKeys = func() []string { return entries }
+	err := updateAPIKeys(nil, nil)
+	rt.Assert(err == nil, "keyconfig/import-ok")
+	// time passes: 0, 2 or 4 units
+	wait := 2 * rt.Choice("wait", 3)
+	time.Sleep(time.Duration(wait) * c12Unit())
+	for _, k := range keys {
+		if k.path == "" {
+			continue
+		}
+		r := &http.Request{Header: http.Header{"Authorization": {"Bearer " + k.path}}, RemoteAddr: "192.168.0.1:1234"}
+		token := checkAPIKey(r)
+		if k.ok && (k.expires == 0 || wait < k.expires) {
+			rt.Assert(token != nil, "keyconfig/configured-unexpired-key-accepted")
+		} else {
+			rt.Assert(token == nil, "keyconfig/expired-or-malformed-key-grants-nothing")
+		}
+		if token != nil && k.entry != "keyCCCC?write=user" {
+			rt.Assert(token.Read == k.perm && token.Write == k.perm, "keyconfig/grants-what-its-entry-says")
+		}
+	}
+	// unknown key
+	r := &http.Request{Header: http.Header{"Authorization": {"Bearer keyZZZZ"}}, RemoteAddr: "192.168.0.1:1234"}
+	rt.Assert(checkAPIKey(r) == nil, "keyconfig/unknown-key-grants-nothing")
+	rt.Reach("keyconfig-end")
+}
+
+func setupGlobalsC12() {
+	if ErrAPIAccessDeniedMessage == nil {
+		ErrAPIAccessDeniedMessage = errors.New("")
+	}
+	if authFnSet == nil {
+		authFnSet = abool.New()
+	}
+	if apiKeys == nil {
+		apiKeys = make(map[string]*AuthToken)
+	}
+}
